@@ -30,6 +30,23 @@ function gen1(rng, params, mode) {
     const d2 = genDisc(rng, 1, names, { key: d1[2], tags: d1[3].map((m) => m[0]) });
     rts.splice(0, rts.length >= 2 ? 2 : rts.length, d1, d2);
   }
+  // variants of a discriminated union that are NAMED types (what the compiler emits for `A | B` over declared object
+  // types): their definitions are stored under the type's own name, and an override may target them
+  if (multi && rng.chance(1, 2)) {
+    let vn = 0;
+    for (const rt of rts) {
+      if (head(rt) !== "disc") continue;
+      rt[1].forEach((obj, i) => {
+        if (!rng.chance(1, 2)) return;
+        const name = "V" + vn++ + "_" + rts.indexOf(rt);
+        const txt = show(obj);
+        env.push([name, obj]); names.push(name);
+        const ref = () => [A("ref"), name];
+        rt[1][i] = ref();
+        for (const k of [3, 4]) rt[k] = rt[k].map(([tag, body]) => [tag, show(body) === txt ? ref() : head(body) === "anyof" ? [body[0], ...body.slice(1).map((c) => (show(c) === txt ? ref() : c))] : body]);
+      });
+    }
+  }
   // type names are arbitrary identifiers: names of Object.prototype members, names with `$` patterns
   if (multi && names.length && rng.chance(1, 6)) {
     const from = rng.pick(names), to = rng.pick(["toString", "constructor", "hasOwnProperty", "valueOf", "Money$$Amount", "A$&B", "Pre$`x", "Post$'x"]);
@@ -83,6 +100,14 @@ export function makeRunner(rt_, mode) {
     data.tpl = tpl; data.key = isAtom(keySx, "none") ? null : keySx;
     // fresh-context reference for every parser (C16: each definition equals the one a fresh context produces)
     data.fresh = parsers.map((p) => { const fc = new cg.SchemaPrintingContext({ refPathTemplate: tpl, definitionContainerKey: data.key, namedTypeSchemaOverrides: overrides }); const r = jsonOrThrow(() => p.schemaWithContext(fc)); return { ok: r.ok, schema: r.ok ? r.v : null, defs: JSON.parse(JSON.stringify(fc.exportDefinitions())) }; });
+    // … and for every NAMED type: the definition a fresh context stores when that type itself is printed
+    data.freshByName = {};
+    for (const [name] of envSx) {
+      const fc = new cg.SchemaPrintingContext({ refPathTemplate: tpl, definitionContainerKey: data.key, namedTypeSchemaOverrides: overrides });
+      const pn = cg.buildParserFromRuntype(makeBuilder(cg)(envSx, [A("ref"), name]).rt, "N", false);
+      const r = jsonOrThrow(() => pn.schemaWithContext(fc));
+      data.freshByName[name] = { ok: r.ok, defs: JSON.parse(JSON.stringify(fc.exportDefinitions())) };
+    }
     const reply = [A("sc"), [A("flat"), ...flat.map((f) => (f.ok ? encVal(JSON.parse(JSON.stringify(f.v))) : [A("throw")]))], [A("calls"), ...calls]];
     return [reply, [A("oracle-data"), JSON.stringify(data)]];
   };
